@@ -7,6 +7,7 @@ import (
 	"fmt"
 	"math/big"
 	"math/rand/v2"
+	"strings"
 	"sync"
 
 	"github.com/onflow/crypto"
@@ -474,6 +475,7 @@ func C01(run *mon.Run) {
 			wg.Wait()
 		}
 	}
+	c01HashToCurve(run, r)
 	// dedicated hunt for points whose x fits x+p < 2^381, so that the non-reduced
 	// encoding of the *accepted* point itself is always tried
 	for i := 0; i < run.Pick(3, 20); i++ {
@@ -574,5 +576,115 @@ func C01(run *mon.Run) {
 	}
 	for _, k := range []string{"class.on-curve-not-G1", "class.in-G1", "class.range", "class.offcurve", "class.flags", "class.infinity"} {
 		run.Require(run.Counter(k) > 0, "reference class never observed: "+k)
+	}
+}
+
+// expandMessageXMDSHA256 is expand_message_xmd of RFC 9380 (section 5.3.1) over the reference SHA-256.
+func expandMessageXMDSHA256(msg, dst []byte, n int) []byte {
+	dstPrime := append(append([]byte{}, dst...), byte(len(dst)))
+	ell := (n + 31) / 32
+	msgPrime := append(make([]byte, 64), msg...)
+	msgPrime = append(msgPrime, byte(n>>8), byte(n), 0)
+	msgPrime = append(msgPrime, dstPrime...)
+	b0 := ref.SHA256(msgPrime)
+	bi := ref.SHA256(append(append(append([]byte{}, b0...), 1), dstPrime...))
+	out := append([]byte{}, bi...)
+	for i := 2; i <= ell; i++ {
+		x := make([]byte, 32)
+		for k := range x {
+			x[k] = b0[k] ^ bi[k]
+		}
+		bi = ref.SHA256(append(append(x, byte(i)), dstPrime...))
+		out = append(out, bi...)
+	}
+	return out[:n]
+}
+
+// c01HashToCurve anchors the map from the 128 hasher bytes to G1, which every other BLS oracle takes
+// from the library itself (as the signature under sk = 1):
+//   - absolute: the x-coordinates of the five BLS12381G1_XMD:SHA-256_SSWU_RO_ test vectors of RFC 9380
+//     (appendix J.9.1), reached through a hasher that returns expand_message_xmd of the message;
+//   - structural (RFC 9380 section 5.2/6.6.2): the image depends only on the two 64-byte halves reduced
+//     modulo p, is symmetric in the halves, and negating both field elements negates the point.
+func c01HashToCurve(run *mon.Run, r *rand.Rand) {
+	dst := []byte("QUUX-V01-CS02-with-BLS12381G1_XMD:SHA-256_SSWU_RO_")
+	msgs := []string{"", "abc", "abcdef0123456789", "q128_" + strings.Repeat("q", 128), "a512_" + strings.Repeat("a", 512)}
+	wantX := []string{
+		"052926add2207b76ca4fa57a8734416c8dc95e24501772c814278700eed6d1e4e8cf62d9c09db0fac349612b759e79a1",
+		"03567bc5ef9c690c2ab2ecdf6a96ef1c139cc0b2f284dca0a9a7943388a49a3aee664ba5379a7655d3c68900be2f6903",
+		"11e0b079dea29a68f0383ee94fed1b940995272407e3bb916bbf268c263ddd57a6a27200a784cbc248e84f357ce82d98",
+		"15f68eaa693b95ccb85215dc65fa81038d69629f70aeee0d0f677cf22285e7bf58d7cb86eefe8f2e9bc3f8cb84fac488",
+		"082aabae8b7dedb0e78aeb619ad3bfd9277a2f77ba7fad20ef6aabdc6c31d19ba5a6d12283553294c1825c4b3ca2dcfe",
+	}
+	pointOf := func(uniform []byte) (ref.G1, bool) {
+		h := &fixedHasher{name: "uniform", size: 128, f: func(_ []byte, _ int) []byte { return append([]byte{}, uniform...) }}
+		sig, err := sk1().Sign([]byte("m"), h)
+		if err != nil {
+			run.Violate("C01:hash-to-curve:sign-error", err.Error(), map[string]any{"uniform": mon.Hex(uniform)})
+			return ref.G1{}, false
+		}
+		p, cls := ref.DecodeG1(sig)
+		if cls != ref.DecOK || !ref.InG1(p) {
+			run.Violate("C01:hash-to-curve:not-in-G1", fmt.Sprintf("the image of %x is not a canonical G1 point: %x", uniform, []byte(sig)), map[string]any{"uniform": mon.Hex(uniform)})
+			return ref.G1{}, false
+		}
+		return p, true
+	}
+	for i, m := range msgs {
+		uniform := expandMessageXMDSHA256([]byte(m), dst, 128)
+		p, ok := pointOf(uniform)
+		if !ok {
+			continue
+		}
+		run.Eval(1)
+		got := fmt.Sprintf("%096x", p.X)
+		if got != wantX[i] {
+			run.Violate("C01:hash-to-curve:rfc9380-vector", fmt.Sprintf("RFC 9380 J.9.1 vector %d (message %q): the library maps expand_message_xmd to a point with x = %s, the RFC gives x = %s", i, m[:min(len(m), 20)], got, wantX[i]), map[string]any{"vector": i})
+		}
+		if i == 0 {
+			// the y-coordinate of the first vector fixes the sign convention (sgn0) as well
+			const wantY0 = "08ba738453bfed09cb546dbb0783dbb3a5f1f566ed67bb6be0e8c67e2e81a4cc68ee29813bb7994998f3eae0c9c6a265"
+			if gotY := fmt.Sprintf("%096x", p.Y); gotY != wantY0 {
+				run.Violate("C01:hash-to-curve:rfc9380-vector-sign", fmt.Sprintf("RFC 9380 J.9.1 vector 0: y = %s, the RFC gives y = %s", gotY, wantY0), map[string]any{"vector": 0})
+			}
+		}
+		run.Shape(fmt.Sprintf("hash-to-curve|rfc-vector-%d", i))
+	}
+	// structural relations on random inputs
+	be := func(v *big.Int) []byte { return v.FillBytes(make([]byte, 64)) }
+	for i := 0; i < run.Pick(12, 200); i++ {
+		u0 := new(big.Int).Mod(new(big.Int).SetBytes(mon.RandBytes(r, 64)), ref.P)
+		u1 := new(big.Int).Mod(new(big.Int).SetBytes(mon.RandBytes(r, 64)), ref.P)
+		if i == 0 {
+			u0 = big.NewInt(0)
+		}
+		if i == 1 {
+			u1 = new(big.Int).Set(u0)
+		}
+		base, ok := pointOf(append(be(u0), be(u1)...))
+		if !ok {
+			return
+		}
+		rep := map[string]any{"u0": u0.Text(16), "u1": u1.Text(16)}
+		// the same residues written non-reduced (u + k*p still fits in 64 bytes for k < 2^130)
+		k0 := new(big.Int).Lsh(big.NewInt(1), uint(r.IntN(128)))
+		k1 := big.NewInt(int64(1 + r.IntN(1000)))
+		nr, ok := pointOf(append(be(new(big.Int).Add(u0, new(big.Int).Mul(k0, ref.P))), be(new(big.Int).Add(u1, new(big.Int).Mul(k1, ref.P)))...))
+		run.Eval(3)
+		if ok && !ref.E1.Equal(nr, base) {
+			run.Violate("C01:hash-to-curve:reduction", "two 128-byte strings whose halves are congruent modulo p map to different points", rep)
+		}
+		sw, ok := pointOf(append(be(u1), be(u0)...))
+		if ok && !ref.E1.Equal(sw, base) {
+			run.Violate("C01:hash-to-curve:halves-not-symmetric", "swapping the two 64-byte halves changes the image (the image is the sum of the two mapped field elements)", rep)
+		}
+		if u0.Sign() == 0 || u1.Sign() == 0 {
+			continue // -0 = 0: the relation needs two non-zero field elements
+		}
+		ng, ok := pointOf(append(be(ref.Fp.Neg(u0)), be(ref.Fp.Neg(u1))...))
+		if ok && !ref.E1.Equal(ng, ref.E1.Neg(base)) {
+			run.Violate("C01:hash-to-curve:negation", "negating both field elements does not negate the image (the sign of y follows sgn0(u))", rep)
+		}
+		run.Shape("hash-to-curve|structure")
 	}
 }
